@@ -11,12 +11,14 @@ def run(ctx):
     return ctx.finish(
         level="proof",
         rule="one case = one layer (TOC + blob) opened by memory.NewReader and db.NewReader in a shared bolt "
+             "file (1-4 layers per session, closed in random order with re-dumps of the survivors); "
              "file; layers are distinct by (source: real builder under random chunk-size/min-chunk-size/"
              "compression/prioritized-files options, or hand-serialised TOC around real payload; feature set: "
              "implicit dirs, repeated dirs, hardlink chains, missing digests, ./ ../ spellings, empty xattrs, "
              "inner-offset streams, TOC trailing bytes; stream: conforming / candidate / non-conforming); every "
              "metadata.Reader answer of both stores is compared with its Lean interpreter line by line and "
-             "the two implementations are compared with each other by the oracle",
+             "the two implementations are compared with each other by the oracle; conforming layers are "
+             "additionally checked to satisfy the model's decidable SpecConforming predicate (op `spec`)",
         assumptions=[
             "JSON decoding (encoding/json vs goccy/go-json), gzip/zstd/tar codecs, SHA-256 and bolt transactions "
             "are outside the model (validated by the correspondence, not modelled)",
